@@ -354,7 +354,8 @@ class FnA:
         return None
 
     def origin_place(self, place, bi, pos, depth=0, seen=None):
-        if depth > 40:
+        if depth > DEPTH_LIMIT:
+            DEEP_CUTS[0] += 1
             return ("deep",)
         up = self.upvar_name(place)
         if up is not None:
@@ -478,7 +479,9 @@ class FnA:
             else:
                 terms.append(("unknown",))
         t = mkjoin(terms)
-        if not has_cycle(t):
+        # a term cut off by the depth limit is only as deep as the query that happened to reach it
+        # first: caching it would make the answer to a shallow query depend on evaluation order
+        if not has_cycle(t) and (depth == 0 or not has_tag(t, "deep")):
             self._origin_cache[key] = t
         return t
 
@@ -704,6 +707,22 @@ def mkjoin(terms):
     if len(flat) == 1:
         return flat[0]
     return ("join", tuple(flat))
+
+
+# origin terms are cut off ("deep") beyond this nesting of definitions; large enough that no
+# function of the analysed crate reaches it (the evidence reports how many terms were cut)
+DEPTH_LIMIT = 150
+import sys as _sys
+_sys.setrecursionlimit(max(_sys.getrecursionlimit(), 20000))
+DEEP_CUTS = [0]
+
+
+def has_tag(t, tag):
+    if not isinstance(t, tuple):
+        return False
+    if t and t[0] == tag:
+        return True
+    return any(has_tag(x, tag) for x in t if isinstance(x, tuple))
 
 
 def has_cycle(t):
